@@ -209,6 +209,11 @@ def lazy_generator(model, R, scope):
         if not any(d in ('lazyproperty', 'cached_property', 'lru_cache', 'cache') for d in deco):
             continue
         n += 1
+        if func.key in gens:
+            R.bad('LAZY-GENERATOR', func, func.node, 'a cached value is not a one-shot iterator', 'no caching of a generator function',
+                  f'generator function {func.name} is cached by @{deco[0]}: the cache stores the generator, the first caller exhausts it and '
+                  'every later caller with the same arguments sees nothing')
+            continue
         for node in walk(func.body):
             if isinstance(node, ast.Return) and node.value is not None:
                 v = node.value
